@@ -1,6 +1,14 @@
 #!/usr/bin/env python3
 """dev helper: print the markdown tables of DESIGN.md sections 6-7 from known_findings.json, seeded/*/meta.json and evidence/*.json"""
-import glob, json, os
+import glob, io, json, os, sys
+_out = io.StringIO()
+_real_print = print
+
+
+def print(*a, **k):  # noqa: A001 - collect the tables so that --write can splice them into DESIGN.md
+    _real_print(*a, **k, file=_out)
+
+
 kf = json.load(open("/verif/known_findings.json"))["findings"]
 print("### Findings: repaired (`fix:` commits in /repo)\n")
 print("| prop | commit | what failed |\n|---|---|---|")
@@ -24,3 +32,18 @@ print("| id | executions | states | non-trivial | wall s |\n|---|---:|---:|---:|
 for f in sorted(glob.glob("/verif/evidence/*.json")):
     e = json.load(open(f)); c = e["coverage"]
     print(f"| {e['property_id']} ({e['tier']}) | {c.get('evaluations')} | {c.get('states')} | {c.get('distinct_nontrivial')} | {e['wall_s']} |")
+
+
+def write_into_design(text):
+    p = "/verif/DESIGN.md"
+    d = open(p).read()
+    a = d.index("<!-- TABLES:BEGIN")
+    a = d.index("\n", a) + 1
+    b = d.index("<!-- TABLES:END -->")
+    open(p, "w").write(d[:a] + "\n" + text + "\n" + d[b:])
+
+
+if "--write" in sys.argv:
+    write_into_design(_out.getvalue())
+else:
+    _real_print(_out.getvalue())
